@@ -88,6 +88,10 @@ def transparent(sk, *xs):
         return fail("update count %r, kernel executed %r" % (comp.get("payload_update", 0), c1.update))
     if comp.get("payload_add", 0) != c1.add:
         return fail("add count %r, kernel executed %r" % (comp.get("payload_add", 0), c1.add))
+    if "Compute" in dump:
+        from fibertree.model.compute import Compute
+        if (Compute.numOps(dump, "mul"), Compute.numOps(dump, "add"), Compute.numOps(dump, "update")) != (c1.mul, c1.add, c1.update):
+            return fail("Compute.numOps reports other counts than the kernel executed")
     for r, ty, rows in traces:
         if ty == "iter":
             n = len(rows) - 1 if rows else 0
